@@ -72,7 +72,9 @@ type vfC13ChanEntry struct {
 	ByDel  bool   // left because the document was deleted
 }
 
-type vfC13Span struct{ Start, End uint64 } // End 0 = still open
+// End 0 = still open. Stamp (access periods only): the channel's grant sequence when the period
+// ended - the earliest source still present then, which is where the recorded period starts.
+type vfC13Span struct{ Start, End, Stamp uint64 }
 
 func vfC13SpansOverlap(a, b vfC13Span) bool {
 	start := a.Start
@@ -129,11 +131,13 @@ type vfC13Model struct {
 	// per user: the model sequences at which the user and the roles then assigned were loaded by a
 	// request of that user (every load records pending grant-history entries)
 	Loads map[string][]uint64
+	// per user and channel: the grant sequence (earliest current source) after the previous operation
+	CurStamp map[string]map[string]uint64
 }
 
 func vfC13NewModel() *vfC13Model {
 	return &vfC13Model{Docs: map[string]*vfC13Doc{}, Users: map[string]*vfC13Princ{}, Roles: map[string]*vfC13Princ{}, Gap: map[string]map[string]uint64{}, Periods: map[string]map[string][]vfC13Span{}, MemStart: map[string]map[string]uint64{}, MemLast: map[string]map[string]uint64{},
-		MemPrevEnd: map[string]map[string]uint64{}, Loads: map[string][]uint64{}}
+		MemPrevEnd: map[string]map[string]uint64{}, Loads: map[string][]uint64{}, CurStamp: map[string]map[string]uint64{}}
 }
 
 // NoteLoad records that a request of the user loaded the user and the roles assigned right now.
@@ -205,6 +209,7 @@ func (m *vfC13Model) Clone() *vfC13Model {
 	c.MemStart = vfC13Copy2(m.MemStart)
 	c.MemLast = vfC13Copy2(m.MemLast)
 	c.MemPrevEnd = vfC13Copy2(m.MemPrevEnd)
+	c.CurStamp = vfC13Copy2(m.CurStamp)
 	for u, l := range m.Loads {
 		c.Loads[u] = append([]uint64{}, l...)
 	}
@@ -645,13 +650,21 @@ func (m *vfC13Model) noteGaps() {
 		for _, c := range vfC13AllChans {
 			p := m.Periods[name][c]
 			open := len(p) > 0 && p[len(p)-1].End == 0
-			if _, ok := eff[c]; !ok {
+			if m.CurStamp[name] == nil {
+				m.CurStamp[name] = map[string]uint64{}
+			}
+			if stamp, ok := eff[c]; !ok {
 				m.Gap[name][c] = m.Seq
 				if open {
 					p[len(p)-1].End = m.Seq
+					p[len(p)-1].Stamp = m.CurStamp[name][c]
 				}
-			} else if !open {
-				m.Periods[name][c] = append(p, vfC13Span{Start: m.Seq})
+				delete(m.CurStamp[name], c)
+			} else {
+				if !open {
+					m.Periods[name][c] = append(p, vfC13Span{Start: m.Seq})
+				}
+				m.CurStamp[name][c] = stamp
 			}
 		}
 	}
